@@ -141,6 +141,11 @@ func (c *Ctx) drawIntn(info *types.Info, rel string, call *ast.CallExpr, stack [
 		unknown("result of the draw is not stored in a variable")
 		return
 	}
+	// --- reservoir step extracted into a function f(C, N) (slot, keep):
+	//     if C < N { return C, true }; v = Intn(C+1); return v, v < N
+	if c.drawReservoirStep(info, key, arg, call, v, body, stack) {
+		return
+	}
 	// --- reservoir, "slot" form: v := C; if N <= C { v = Intn(...) }; if v < N { out[v] = x }
 	if done := c.drawSlotForm(info, key, arg, call, v, body, stack); done {
 		return
@@ -860,6 +865,136 @@ func (c *Ctx) drawSlotForm(info *types.Info, key, arg string, call *ast.CallExpr
 		c.Violation("DRAW", key, call.Pos(), "reservoir sampling: the count of items seen ("+cKey+") is not incremented exactly once on every path of an iteration ("+why+")").Clause = "every tree / tip subset has the same probability; reservoir sampling"
 	default:
 		c.OK("DRAW", key, call.Pos(), "reservoir (slot form): position "+cKey+", slot drawn from Intn("+arg+") once the reservoir is full, stored iff slot < "+nKey)
+	}
+	return true
+}
+
+// drawReservoirStep recognises the reservoir step written as a function of (items seen, size):
+// the fill case returns (seen, true) under seen < size, the draw is Intn(seen+1) and the second
+// result is `draw < size`. Every caller must hand it a counter that advances exactly once per item.
+func (c *Ctx) drawReservoirStep(info *types.Info, key, arg string, call *ast.CallExpr, v types.Object, body *ast.BlockStmt, stack []ast.Node) bool {
+	var fd *ast.FuncDecl
+	for _, a := range stack {
+		if d, ok := a.(*ast.FuncDecl); ok {
+			fd = d
+		}
+	}
+	if fd == nil || fd.Type.Results == nil || fd.Type.Params == nil {
+		return false
+	}
+	fobj, _ := info.Defs[fd.Name].(*types.Func)
+	if fobj == nil {
+		return false
+	}
+	sig := fobj.Type().(*types.Signature)
+	if sig.Results().Len() != 2 || sig.Params().Len() != 2 {
+		return false
+	}
+	// fill guard: if C < N { return C, true }
+	var cObj, nObj types.Object
+	for _, st := range fd.Body.List {
+		is, ok := st.(*ast.IfStmt)
+		if !ok || is.Else != nil || len(is.Body.List) != 1 {
+			continue
+		}
+		ret, ok := is.Body.List[0].(*ast.ReturnStmt)
+		be, ok2 := unparen(is.Cond).(*ast.BinaryExpr)
+		if !ok || !ok2 || len(ret.Results) != 2 {
+			continue
+		}
+		var ce, ne ast.Expr
+		switch be.Op {
+		case token.LSS:
+			ce, ne = be.X, be.Y
+		case token.GTR:
+			ce, ne = be.Y, be.X
+		default:
+			continue
+		}
+		if tv, ok := info.Types[ret.Results[1]]; !ok || tv.Value == nil || tv.Value.String() != "true" {
+			continue
+		}
+		if identObj(info, ret.Results[0]) != identObj(info, ce) {
+			continue
+		}
+		cObj, nObj = identObj(info, ce), identObj(info, ne)
+	}
+	if cObj == nil || nObj == nil || (cObj != sig.Params().At(0) && cObj != sig.Params().At(1)) {
+		return false
+	}
+	// final return: v, v < N
+	okRet := false
+	ast.Inspect(fd.Body, func(m ast.Node) bool {
+		ret, ok := m.(*ast.ReturnStmt)
+		if !ok || len(ret.Results) != 2 || identObj(info, ret.Results[0]) != v {
+			return true
+		}
+		if be, ok := unparen(ret.Results[1]).(*ast.BinaryExpr); ok {
+			if (be.Op == token.LSS && identObj(info, be.X) == v && identObj(info, be.Y) == nObj) || (be.Op == token.GTR && identObj(info, be.Y) == v && identObj(info, be.X) == nObj) {
+				okRet = true
+			}
+		}
+		return true
+	})
+	if !okRet {
+		return false
+	}
+	want := canonPlus1(cObj.Name())
+	if arg != want {
+		c.Violation("DRAW", key, call.Pos(), fmt.Sprintf("reservoir step: the item at zero-based position %s must draw from Intn(%s); Intn(%s) gives later items the wrong probability of entering", cObj.Name(), want, arg)).Clause = "every tree / tip subset has the same probability; reservoir sampling"
+		return true
+	}
+	// callers: the counter argument advances exactly once per iteration of their loop
+	cIdx := 0
+	if cObj == sig.Params().At(1) {
+		cIdx = 1
+	}
+	bad := ""
+	nCalls := 0
+	for _, fi := range append(c.AllFuncs(), c.PkgLevelClosures()...) {
+		finfo := fi.Pkg.TypesInfo
+		walkStack(fi.Decl.Body, func(m ast.Node, st []ast.Node) bool {
+			cl, ok := m.(*ast.CallExpr)
+			if !ok || calleeOf(finfo, cl) != fobj || len(cl.Args) != 2 {
+				return true
+			}
+			nCalls++
+			cnt := identObj(finfo, cl.Args[cIdx])
+			var loopBody *ast.BlockStmt
+			byLoop := false
+			for i := len(st) - 1; i >= 0 && loopBody == nil; i-- {
+				switch lp := st[i].(type) {
+				case *ast.RangeStmt:
+					loopBody = lp.Body
+					if lp.Key != nil && identObj(finfo, lp.Key) == cnt {
+						byLoop = true
+					}
+				case *ast.ForStmt:
+					loopBody = lp.Body
+					if inc, ok := lp.Post.(*ast.IncDecStmt); ok && inc.Tok == token.INC && identObj(finfo, inc.X) == cnt {
+						byLoop = true
+					}
+				}
+			}
+			if cnt == nil || loopBody == nil {
+				bad = "a caller does not pass a loop counter"
+				return true
+			}
+			if !byLoop {
+				if ok2, why := incOncePerIteration(finfo, loopBody.List, cnt); !ok2 {
+					bad = "in " + funcName(fi.Obj) + " the count of items seen (" + cnt.Name() + ") is not incremented exactly once per iteration (" + why + ")"
+				}
+			}
+			return true
+		})
+	}
+	switch {
+	case nCalls == 0:
+		c.Undecided("DRAW", key, call.Pos(), "reservoir step function with no caller")
+	case bad != "":
+		c.Violation("DRAW", key, call.Pos(), "reservoir sampling: "+bad+": later items are drawn against a stale count").Clause = "every tree / tip subset has the same probability; reservoir sampling"
+	default:
+		c.OK("DRAW", key, call.Pos(), fmt.Sprintf("reservoir step %s(%s, %s): fill under %s < %s, draw Intn(%s), kept iff draw < %s; %d caller(s) advance the count once per item", fobj.Name(), cObj.Name(), nObj.Name(), cObj.Name(), nObj.Name(), arg, nObj.Name(), nCalls))
 	}
 	return true
 }
